@@ -55,6 +55,35 @@ def _lt_of(t, pname, dflt_r):
     return False
 
 
+ITER_VIEW = re.compile(r"(<impl \[T\]>::iter|IntoIterator::into_iter|Iterator::by_ref|Iterator::copied|Iterator::cloned|Vec::<T, A>::iter|Vec::<T, A>::into_iter|Iterator::rev|Iterator::peekable|Iterator::fuse)$")
+
+
+def resolve_item(it, path):
+    """Which source collection does `item.path` of iterator term `it` come from?  -> (term, remaining path) with
+    term = ELEM(collection) or INDEX(collection)."""
+    for _ in range(24):
+        if it[0] == "call" and ITER_VIEW.search(it[1]) and it[2]:
+            it = it[2][0]
+            continue
+        if it[0] == "call" and re.search(r"(itertools::multizip|itertools::izip)$", it[1]) and it[2] and it[2][0][0] == "agg" and path and re.fullmatch(r"\.\d+", path[0]):
+            i = int(path[0][1:])
+            parts = it[2][0][2]
+            if i < len(parts):
+                it, path = parts[i], path[1:]
+                continue
+            break
+        if it[0] == "call" and it[1].endswith("Iterator::zip") and len(it[2]) == 2 and path and path[0] in (".0", ".1"):
+            it, path = it[2][int(path[0][1:])], path[1:]
+            continue
+        if it[0] == "call" and it[1].endswith("Iterator::enumerate") and it[2] and path and path[0] in (".0", ".1"):
+            if path[0] == ".0":
+                return ("call", "INDEX", (it[2][0],)), path[1:]
+            it, path = it[2][0], path[1:]
+            continue
+        break
+    return ("call", "ELEM", (it,)), path
+
+
 def MIN(o, v):
     return ("call", "MIN", (o, v))
 
@@ -65,6 +94,9 @@ def normalize(f, t, depth=0):
         return t
     k = t[0]
     if k == "call":
+        if t[1] == "std::iter::Iterator::next" and len(t[2]) == 1:
+            e, rest = resolve_item(normalize(f, t[2][0], depth + 1), ())
+            return e
         args = tuple(normalize(f, a, depth + 1) for a in t[2])
         t = ("call", t[1], args) + tuple(t[3:])
         d = t[1]
@@ -105,6 +137,14 @@ def normalize(f, t, depth=0):
     if k == "write":
         return ("write", t[1], [normalize(f, a, depth + 1) for a in t[2]])
     if k == "proj":
+        inner = t[1]
+        if inner[0] == "call" and inner[1] == "std::iter::Iterator::next" and len(inner[2]) == 1:
+            # element of an iterator chain: name the collection it comes from, whatever zip/enumerate shape was used
+            path = tuple(p for p in t[2] if p != "*")
+            if len(path) >= 2 and path[0] == "as Some" and path[1] == ".0":
+                path = path[2:]
+            e, rest = resolve_item(normalize(f, inner[2][0], depth + 1), path)
+            return ("proj", e, tuple(rest)) if rest else e
         return ("proj", normalize(f, t[1], depth + 1), t[2])
     if k in ("cast", "un"):
         return (k, t[1], normalize(f, t[2], depth + 1))
